@@ -157,7 +157,11 @@ func c03RunLookup(in c03LookupInput) (fields []interface{}, names []string, real
 		look[i] = idx(sch.LookUpField(n))
 		byName[i] = idx(sch.FieldsByName[n])
 	}
-	return fields, names, []interface{}{look, sch.DBNames, byName}, nil
+	dbNames := sch.DBNames
+	if dbNames == nil { // a schema without any column: nil slice == empty list
+		dbNames = []string{}
+	}
+	return fields, names, []interface{}{look, dbNames, byName}, nil
 }
 
 func c03LookupSuite(r *Result, rng *rand.Rand, tier string) {
